@@ -6,6 +6,8 @@ import Mathlib.Tactic.FieldSimp
 import Mathlib.Tactic.Positivity
 import Mathlib.Algebra.Order.Floor.Ring
 import Mathlib.Data.Rat.Floor
+import Mathlib.Algebra.Order.Field.Power
+import Mathlib.Tactic.NormNum
 
 namespace GHEVerif.Coords
 
@@ -479,5 +481,313 @@ theorem zonedRectangle_good {nx ny nix nit : Int} {sx sy d W H : Rat} {z : Field
     · right
       show d ≤ |(ij.2 : Rat) * sy - q.2|
       rw [h, ey, abs_of_nonneg (by linarith)]; linarith
+
+
+/-! ### binary64 rounding: relative error of `fl64` -/
+
+theorem pow2_eq_zpow (e : Int) : pow2 e = (2 : Rat) ^ e := by
+  unfold pow2
+  split
+  · rename_i h
+    have : e = ((e.toNat : Nat) : Int) := (Int.toNat_of_nonneg h).symm
+    conv_rhs => rw [this]
+    rw [zpow_natCast]; push_cast; rfl
+  · rename_i h
+    have : e = -((((-e).toNat : Nat)) : Int) := by omega
+    conv_rhs => rw [this]
+    rw [zpow_neg, zpow_natCast]; push_cast; simp
+
+theorem pow2_pos (e : Int) : 0 < pow2 e := by rw [pow2_eq_zpow]; positivity
+
+theorem pow2_add (a b : Int) : pow2 (a + b) = pow2 a * pow2 b := by
+  simp only [pow2_eq_zpow]; exact zpow_add₀ (by norm_num) a b
+
+theorem roundHalfEven_err (q : Rat) : |((roundHalfEven q : Int) : Rat) - q| ≤ 1 / 2 := by
+  unfold roundHalfEven
+  have h1 := Rat.floor_le q
+  have h2 := Rat.lt_floor_add_one q
+  push_cast at h2
+  simp only []
+  split
+  · rw [abs_le]; constructor <;> linarith
+  · split
+    · rw [abs_le]; push_cast; constructor <;> linarith
+    · have e : q - (q.floor : Rat) = 1 / 2 := by
+        rename_i a b; have := not_lt.mp a; have := not_lt.mp b; linarith
+      split
+      · rw [abs_le]; constructor <;> linarith
+      · rw [abs_le]; push_cast; constructor <;> linarith
+
+theorem normExp_spec {a : Rat} (ha : 0 < a) : (4503599627370496 : Rat) ≤ a / pow2 (normExp a) := by
+  have hnum : 0 < a.num := Rat.num_pos.mpr ha
+  have hden : 0 < a.den := a.den_pos
+  set ln := Nat.log2 a.num.natAbs with hln
+  set ld := Nat.log2 a.den with hld
+  have h1 : 2 ^ ln ≤ a.num.natAbs := Nat.log2_self_le (by omega)
+  have h2 : a.den < 2 ^ (ld + 1) := Nat.lt_log2_self
+  have hnumR : ((2 ^ ln : Nat) : Rat) ≤ (a.num : Rat) := by
+    have : ((2 ^ ln : Nat) : Int) ≤ a.num := by
+      have : (a.num.natAbs : Int) = a.num := Int.natAbs_of_nonneg (le_of_lt hnum)
+      rw [← this]; exact_mod_cast h1
+    exact_mod_cast this
+  have hdenR : (a.den : Rat) ≤ ((2 ^ (ld + 1) : Nat) : Rat) := by exact_mod_cast le_of_lt h2
+  have hdpos : (0 : Rat) < (a.den : Rat) := by exact_mod_cast hden
+  have ea : a = (a.num : Rat) / (a.den : Rat) := (Rat.num_div_den a).symm
+  -- a ≥ 2^(ln - ld - 1)
+  have hlow : pow2 ((ln : Int) - (ld : Int) - 1) ≤ a := by
+    have e1 : pow2 ((ln : Int) - (ld : Int) - 1) = ((2 ^ ln : Nat) : Rat) / ((2 ^ (ld + 1) : Nat) : Rat) := by
+      rw [pow2_eq_zpow, show (ln : Int) - (ld : Int) - 1 = (ln : Int) - ((ld + 1 : Nat) : Int) by push_cast; ring,
+        zpow_sub₀ (by norm_num), zpow_natCast, zpow_natCast]; push_cast; rfl
+    rw [e1, ea]
+    have hp : (0 : Rat) < ((2 ^ (ld + 1) : Nat) : Rat) := by positivity
+    rw [div_le_div_iff₀ hp hdpos]
+    have : (0 : Rat) ≤ ((2 ^ ln : Nat) : Rat) := by positivity
+    nlinarith
+  set e0 : Int := (ln : Int) - (ld : Int) - 52 with he0
+  have hm0 : (2251799813685248 : Rat) ≤ a / pow2 e0 := by
+    rw [le_div_iff₀ (pow2_pos _)]
+    have : (2251799813685248 : Rat) * pow2 e0 = pow2 ((ln : Int) - (ld : Int) - 1) := by
+      have h51 : pow2 51 = 2251799813685248 := by rw [pow2_eq_zpow]; norm_num
+      rw [show (ln : Int) - (ld : Int) - 1 = 51 + e0 by omega, pow2_add, h51]
+    rw [this]; exact hlow
+  have step_dn : a / pow2 (e0 - 1) = 2 * (a / pow2 e0) := by
+    rw [show e0 = (e0 - 1) + 1 by ring, pow2_add, show e0 - 1 + 1 - 1 = e0 - 1 by ring]
+    have : pow2 1 = 2 := by rw [pow2_eq_zpow]; norm_num
+    rw [this]
+    have := pow2_pos (e0 - 1)
+    field_simp
+  have step_up : a / pow2 (e0 + 1) = (a / pow2 e0) / 2 := by
+    rw [pow2_add]
+    have : pow2 1 = 2 := by rw [pow2_eq_zpow]; norm_num
+    rw [this]
+    have := pow2_pos e0
+    field_simp
+  have hne : normExp a = if a / pow2 e0 < 4503599627370496 then e0 - 1
+      else if 9007199254740992 ≤ a / pow2 e0 then e0 + 1 else e0 := rfl
+  rw [hne]
+  split
+  · rw [step_dn]; linarith
+  · split
+    · rw [step_up]; linarith
+    · rename_i h _; exact not_lt.mp h
+
+/-- `fl64` is a rounding with relative error at most `2^-53` (unit roundoff of binary64),
+    for every rational in the normal range the model idealises. -/
+theorem fl64_relErr (q : Rat) : |fl64 q - q| ≤ |q| / 9007199254740992 := by
+  unfold fl64
+  split
+  · rename_i h; subst h; simp
+  rename_i hq
+  have key : ∀ a : Rat, 0 < a →
+      |((roundHalfEven (a / pow2 (normExp a)) : Int) : Rat) * pow2 (normExp a) - a| ≤ a / 9007199254740992 := by
+    intro a ha
+    have hp := pow2_pos (normExp a)
+    have hm := normExp_spec ha
+    have hr := roundHalfEven_err (a / pow2 (normExp a))
+    have e : ((roundHalfEven (a / pow2 (normExp a)) : Int) : Rat) * pow2 (normExp a) - a
+        = (((roundHalfEven (a / pow2 (normExp a)) : Int) : Rat) - a / pow2 (normExp a)) * pow2 (normExp a) := by
+      field_simp
+    rw [e, abs_mul, abs_of_pos hp]
+    have h2 : 4503599627370496 * pow2 (normExp a) ≤ a := (le_div_iff₀ hp).mp hm
+    have : |((roundHalfEven (a / pow2 (normExp a)) : Int) : Rat) - a / pow2 (normExp a)| * pow2 (normExp a)
+        ≤ 1 / 2 * pow2 (normExp a) := mul_le_mul_of_nonneg_right hr (le_of_lt hp)
+    linarith
+  simp only []
+  by_cases hneg : q < 0
+  · simp only [hneg, if_true]
+    have := key (-q) (by linarith)
+    rw [abs_of_neg hneg]
+    have e : -(((roundHalfEven (-q / pow2 (normExp (-q))) : Int) : Rat) * pow2 (normExp (-q))) - q
+        = -((((roundHalfEven (-q / pow2 (normExp (-q))) : Int) : Rat) * pow2 (normExp (-q))) - (-q)) := by ring
+    rw [e, abs_neg]; exact this
+  · simp only [hneg, if_false]
+    have hpos : 0 < q := lt_of_le_of_ne (not_lt.mp hneg) (Ne.symm hq)
+    rw [abs_of_pos hpos]
+    exact key q hpos
+
+
+/-! ### rounding-robustness: closeness of the rounded and the exact instance -/
+
+/-- `R` rounds with relative error at most `u`. -/
+def RelErr (u : Rat) (R : Rat → Rat) : Prop := ∀ q, |R q - q| ≤ u * |q|
+
+theorem fl64_RelErr : RelErr (1 / 9007199254740992) fl64 := by
+  intro q; have := fl64_relErr q; rw [div_eq_mul_inv] at this; rw [one_div]; linarith [mul_comm |q| (9007199254740992 : Rat)⁻¹]
+
+theorem id_RelErr {u : Rat} (hu : 0 ≤ u) : RelErr u id := by
+  intro q; simp; exact mul_nonneg hu (abs_nonneg q)
+
+/-- `x` approximates `y` with relative error at most `ε`. -/
+def Near (ε x y : Rat) : Prop := |x - y| ≤ ε * |y|
+
+theorem Near.refl {ε : Rat} (hε : 0 ≤ ε) (y : Rat) : Near ε y y := by
+  unfold Near; simp; exact mul_nonneg hε (abs_nonneg y)
+
+theorem Near.mono {ε ε' x y : Rat} (h : Near ε x y) (hle : ε ≤ ε') : Near ε' x y :=
+  le_trans h (mul_le_mul_of_nonneg_right hle (abs_nonneg y))
+
+theorem Near.abs_bound {ε x y : Rat} (h : Near ε x y) : |x| ≤ (1 + ε) * |y| := by
+  unfold Near at h
+  have := abs_sub_abs_le_abs_sub x y
+  linarith
+
+/-- one more rounding: `ε ↦ ε + u + ε u` -/
+def bump (u ε : Rat) : Rat := ε + u + ε * u
+
+theorem Near.round {u ε x y : Rat} {R : Rat → Rat} (hR : RelErr u R) (hu : 0 ≤ u) (h : Near ε x y) :
+    Near (bump u ε) (R x) y := by
+  have h1 := hR x
+  have h2 := h.abs_bound
+  unfold Near at *
+  have : |R x - y| ≤ |R x - x| + |x - y| := by
+    have := abs_add_le (R x - x) (x - y); simpa using this
+  have h3 : u * |x| ≤ u * ((1 + ε) * |y|) := mul_le_mul_of_nonneg_left h2 hu
+  unfold bump
+  nlinarith [abs_nonneg y]
+
+theorem Near.const_mul {ε x y : Rat} (c : Rat) (h : Near ε x y) : Near ε (c * x) (c * y) := by
+  unfold Near at *
+  rw [← mul_sub, abs_mul, abs_mul]
+  nlinarith [abs_nonneg c, abs_nonneg y]
+
+theorem Near.zero_add {ε x y : Rat} (h : Near ε x y) : Near ε (0 + x) (0 + y) := by simpa using h
+
+/-- a quotient with an approximate positive denominator -/
+theorem Near.div_left {ε x y : Rat} (c : Rat) (hy : 0 < y) (hε : 0 ≤ ε) (hε1 : ε ≤ 1 / 2) (h : Near ε x y) :
+    Near (2 * ε) (c / x) (c / y) := by
+  unfold Near at *
+  rw [abs_of_pos hy] at h
+  have hx : (1 - ε) * y ≤ x := by have := (_root_.abs_le.mp h).1; linarith
+  have hxpos : 0 < x := lt_of_lt_of_le (by nlinarith) hx
+  have e : c / x - c / y = c / y * ((y - x) / x) := by field_simp
+  rw [e, abs_mul, mul_comm]
+  refine mul_le_mul_of_nonneg_right ?_ (abs_nonneg _)
+  rw [abs_div, abs_of_pos hxpos, div_le_iff₀ hxpos]
+  have : |y - x| ≤ ε * y := by rw [abs_sub_comm]; exact h
+  have hx2 : y ≤ 2 * x := by nlinarith
+  nlinarith [mul_le_mul_of_nonneg_left hx2 hε]
+
+theorem Near.upper {ε x y : Rat} (h : Near ε x y) (hy : 0 ≤ y) : x ≤ (1 + ε) * y := by
+  unfold Near at h; rw [abs_of_nonneg hy] at h; have := (_root_.abs_le.mp h).2; linarith
+
+theorem Near.lower {ε x y : Rat} (h : Near ε x y) (hy : 0 ≤ y) : (1 - ε) * y ≤ x := by
+  unfold Near at h; rw [abs_of_nonneg hy] at h; have := (_root_.abs_le.mp h).1; linarith
+
+/-- pointwise closeness of boreholes -/
+def NearP (ε : Rat) (p q : Point) : Prop := Near ε p.1 q.1 ∧ Near ε p.2 q.2
+
+theorem forall₂_map_same {α β γ : Type} {P : β → γ → Prop} (f : α → β) (g : α → γ) (l : List α)
+    (h : ∀ a ∈ l, P (f a) (g a)) : List.Forall₂ P (l.map f) (l.map g) := by
+  induction l with
+  | nil => exact List.Forall₂.nil
+  | cons a l ih => exact List.Forall₂.cons (h a (by simp)) (ih (fun x hx => h x (by simp [hx])))
+
+theorem forall₂_map {α β γ δ : Type} {P : α → β → Prop} {Q : γ → δ → Prop} {f : α → γ} {g : β → δ}
+    {l1 : List α} {l2 : List β} (h : List.Forall₂ P l1 l2) (hfg : ∀ a b, P a b → Q (f a) (g b)) :
+    List.Forall₂ Q (l1.map f) (l2.map g) := by
+  induction h with
+  | nil => exact List.Forall₂.nil
+  | cons hab _ ih => exact List.Forall₂.cons (hfg _ _ hab) ih
+
+theorem forall₂_append {α β : Type} {P : α → β → Prop} {l1 l1' : List α} {l2 l2' : List β}
+    (h : List.Forall₂ P l1 l2) (h' : List.Forall₂ P l1' l2') : List.Forall₂ P (l1 ++ l1') (l2 ++ l2') := by
+  induction h with
+  | nil => exact h'
+  | cons hab _ ih => exact List.Forall₂.cons hab ih
+
+theorem forall₂_flatMap {α β γ δ : Type} {P : α → β → Prop} {Q : γ → δ → Prop} {f : α → List γ} {g : β → List δ}
+    {l1 : List α} {l2 : List β} (h : List.Forall₂ P l1 l2) (hfg : ∀ a b, P a b → List.Forall₂ Q (f a) (g b)) :
+    List.Forall₂ Q (l1.flatMap f) (l2.flatMap g) := by
+  induction h with
+  | nil => exact List.Forall₂.nil
+  | cons hab _ ih => simp only [List.flatMap_cons]; exact forall₂_append (hfg _ _ hab) ih
+
+/-- The grid computed with rounding `R` from approximate spacings is pointwise close to the exact
+    grid: two more roundings per coordinate. -/
+theorem rectangle_near {u ε : Rat} {R : Rat → Rat} (hR : RelErr u R) (hu : 0 ≤ u) (nx ny : Int) {sx sy sx' sy' : Rat}
+    (hx : Near ε sx' sx) (hy : Near ε sy' sy) :
+    List.Forall₂ (NearP (bump u (bump u ε))) (rectangle R nx ny sx' sy') (rectangle id nx ny sx sy) := by
+  unfold rectangle rectangleO
+  refine forall₂_flatMap (P := Near (bump u (bump u ε))) (forall₂_map_same _ _ _ ?_) ?_
+  · intro i _
+    exact ((hx.const_mul (i : Rat)).round hR hu).zero_add.round hR hu
+  · intro a b hab
+    refine forall₂_map (P := Near (bump u (bump u ε))) (forall₂_map_same _ _ _ ?_) (fun y y' hyy => ⟨hab, hyy⟩)
+    intro j _
+    exact ((hy.const_mul (j : Rat)).round hR hu).zero_add.round hR hu
+
+
+theorem forall₂_mem_left {α β : Type} {P : α → β → Prop} {l1 : List α} {l2 : List β} (h : List.Forall₂ P l1 l2) :
+    ∀ a ∈ l1, ∃ b ∈ l2, P a b := by
+  induction h with
+  | nil => intro a ha; simp at ha
+  | cons hab _ ih =>
+    intro x hx
+    rw [List.mem_cons] at hx
+    rcases hx with rfl | hx
+    · exact ⟨_, by simp, hab⟩
+    · obtain ⟨b, hb, hp⟩ := ih x hx
+      exact ⟨b, by simp [hb], hp⟩
+
+theorem forall₂_pairwise {α β : Type} {P : α → β → Prop} {Q : β → β → Prop} {Q' : α → α → Prop}
+    {l1 : List α} {l2 : List β} (h : List.Forall₂ P l1 l2) (hq : l2.Pairwise Q)
+    (tr : ∀ a a' b b', b ∈ l2 → b' ∈ l2 → P a b → P a' b' → Q b b' → Q' a a') : l1.Pairwise Q' := by
+  induction h with
+  | nil => exact List.Pairwise.nil
+  | @cons a b l1 l2 hab htail ih =>
+    rw [List.pairwise_cons] at hq ⊢
+    constructor
+    · intro a' ha'
+      obtain ⟨b', hb', hp⟩ := forall₂_mem_left htail a' ha'
+      exact tr a a' b b' (by simp) (by simp [hb']) hab hp (hq.1 b' hb')
+    · exact ih hq.2 (fun x x' y y' hy hy' => tr x x' y y' (by simp [hy]) (by simp [hy']))
+
+theorem nearP_transpose {δ : Rat} {fR f : Field} (h : List.Forall₂ (NearP δ) fR f) :
+    List.Forall₂ (NearP δ) (transpose fR) (transpose f) := by
+  unfold transpose
+  exact forall₂_map h (fun a b hab => ⟨hab.2, hab.1⟩)
+
+/-- A field pointwise `δ`-close to a field that is on the land and `d`-separated is on the land
+    enlarged by the factor `1 + δ` and `(d − 2 δ max(Lx, Ly))`-separated. -/
+theorem approx_of_near {δ d Lx Ly : Rat} {fR f : Field} (hδ0 : 0 ≤ δ) (hδ : δ ≤ 1)
+    (h : List.Forall₂ (NearP δ) fR f) (hin : InLand Lx Ly f) (hsep : Sep d f) :
+    InLand ((1 + δ) * Lx) ((1 + δ) * Ly) fR ∧ Sep (d - 2 * δ * max Lx Ly) fR := by
+  constructor
+  · intro p hp
+    obtain ⟨q, hq, h1, h2⟩ := forall₂_mem_left h p hp
+    obtain ⟨a, b, c, e⟩ := hin q hq
+    have u1 := h1.upper a
+    have l1 := h1.lower a
+    have u2 := h2.upper c
+    have l2 := h2.lower c
+    refine ⟨?_, ?_, ?_, ?_⟩
+    · nlinarith
+    · nlinarith
+    · nlinarith
+    · nlinarith
+  · unfold Sep
+    refine forall₂_pairwise h hsep ?_
+    intro p p' q q' hq hq' hp hp' hs
+    obtain ⟨a, b, c, e⟩ := hin q hq
+    obtain ⟨a', b', c', e'⟩ := hin q' hq'
+    have mx : Lx ≤ max Lx Ly := le_max_left _ _
+    have my : Ly ≤ max Lx Ly := le_max_right _ _
+    have tri : ∀ x x' y y' : Rat, |y - y'| ≤ |x - x'| + |x - y| + |x' - y'| := by
+      intro x x' y y'
+      have e1 : y - y' = (x - x') + (-(x - y)) + (x' - y') := by ring
+      rw [e1]
+      have := abs_add_three (x - x') (-(x - y)) (x' - y')
+      rwa [abs_neg] at this
+    rcases hs with hs | hs
+    · left
+      have n1 : |p.1 - q.1| ≤ δ * q.1 := by have := hp.1; unfold Near at this; rwa [abs_of_nonneg a] at this
+      have n2 : |p'.1 - q'.1| ≤ δ * q'.1 := by have := hp'.1; unfold Near at this; rwa [abs_of_nonneg a'] at this
+      have := tri p.1 p'.1 q.1 q'.1
+      nlinarith
+    · right
+      have n1 : |p.2 - q.2| ≤ δ * q.2 := by have := hp.2; unfold Near at this; rwa [abs_of_nonneg c] at this
+      have n2 : |p'.2 - q'.2| ≤ δ * q'.2 := by have := hp'.2; unfold Near at this; rwa [abs_of_nonneg c'] at this
+      have := tri p.2 p'.2 q.2 q'.2
+      nlinarith
 
 end GHEVerif.Coords
